@@ -103,3 +103,32 @@ package pe
 //@   ensures [only-designated-formats] result ==> format == nil || len(*format) == 0 || credential.Format() == "" || (*format)[credential.Format()] != nil
 //@   ensures [json-ld-proof-type-listed] result && format != nil && len(*format) > 0 && credential.Format() == vc.JSONLDCredentialProofFormat && len(credential.Proof) > 0 ==>
 //@        did(call matchProofType #1) && ret(call matchProofType #1) == true && same(arg(call matchProofType #1, 1), credential)
+
+// ---- C12 / C19: filters on values taken from credentials (arbitrary JSON) ----
+
+//@ func regexp2.Compile
+//@   trusted
+//@   benign
+//@   ensures isNilIface(result.1) ==> result.0 != nil
+//@ func (*regexp2.Regexp).FindStringMatch
+//@   trusted
+//@   benign
+// deterministic for a given match (regexp2: match.go)
+//@ func (*regexp2.Match).Groups
+//@   trusted
+//@   pure
+//@ func (*regexp2.Capture).Runes
+//@   trusted
+//@   benign
+//@ func (*regexp2.Group).Runes
+//@   trusted
+//@   benign
+
+// No value of any JSON shape makes the filter panic; a scalar matches only a filter of its own type.
+//@ func matchFilter
+//@   prop C12 C19
+//@   safety
+//@   loop 1 invariant true
+//@   loop 2 invariant true
+//@   ensures [scalar-type-respected] result.0 && len(filter.Enum) == 0 && typeOf(value) == string ==> filter.Type == "string"
+//@   ensures [non-scalar-matches-only-through-an-element] result.0 && len(filter.Enum) == 0 && !(typeOf(value) == string) && !(typeOf(value) == float64) && !(typeOf(value) == int) && !(typeOf(value) == bool) ==> did(call matchFilter #2) && ret(call matchFilter #2).0 == true
